@@ -25,6 +25,7 @@ class Opts(object):
         self.w_rep = 2
         self.plain_bitmap_list = True   # 031031 written N times without a replication
         self.repeat_elements = True
+        self.p_unclosed = (1, 8)        # probability that a top-level operator scope is left open to the end of the template
         self.bitmap_in_rep = True       # a self-contained block (elements, 22X000 + bitmap + values, 235000) as a replication body
         self.__dict__.update(kw)
 
@@ -219,7 +220,7 @@ def _scoped(ch, pool, ctx, opts, depth, open_id, close_id, mutate, max_items=3, 
     ctx.min_plain = c.min_plain
     out = [open_id] + inner
     unclosed = (opts.allow_unclosed and not opts.balanced_only and depth == 0 and not ctx.in_rep
-                and ch.bool(1, 8))
+                and ch.bool(*opts.p_unclosed))
     if unclosed:
         ctx.features.add('unclosed')
         # everything generated after this point stays inside the scope
